@@ -38,8 +38,10 @@ CHECKS = {
         "assignment with SceneOK = T may be rejected, a compile-time InvalidScenarioError is legitimate only if no assignment is "
         "valid, and the logged Eval sequences are accepted by CheckerTrace.tla.",
         "Lattice programs only (2-4 box-union objects, discrete positions / yaw / allowCollisions, objects with fixed pose next to "
-        "a boundary, `mutate` with scripted Gaussian noise, random shapes of fixed dimensions, own regionContainedIn, box / polygon "
-        "workspaces, coordinate predicates, 3-D mode); visibility only in clear-cut configurations with an unrotated viewer; "
+        "a boundary, `mutate` with scripted Gaussian noise, random shapes of fixed dimensions, own regionContainedIn, non-convex "
+        "obstacle objects with positions wholly inside their material, long occluding walls whose centre is out of view range, "
+        "box / polygon workspaces, coordinate predicates, 3-D mode); visibility only in clear-cut configurations with an unrotated "
+        "viewer; "
         "touching = don't-care; seeded program sample; permutations complete up to 5 active requirements (rotation family beyond); "
         "2-D mode, curved shapes, continuous distributions and maxIterations > 1 not covered. No open finding (the two defects "
         "found, occluder iterator and validate() crash, are repaired).",
@@ -48,17 +50,20 @@ CHECKS = {
     "C04": (
         "model_checking",
         "TLA+ Overlap.tla: exact integer oracle for unions of lattice boxes under the 24 cube rotations (global rotation = exact "
-        "composition of a parent and a local rotation) + the decision lists of Object.intersects / MeshVolumeRegion.intersects / "
-        "containsObject / PolygonalFootprintRegion.containsObject / minimumDistanceTo as guarded exits over named exact "
-        "quantities; TLC checks every exit sound, lists total, oracle lemmas; bound to the code by replay of a stratified batch on "
+        "composition of a parent and a local rotation; containment configurations optionally turned as a whole by the rational yaw "
+        "3/5-4/5, world bounding-box quantities computed exactly on the turned corners) + the decision lists of Object.intersects / "
+        "MeshVolumeRegion.intersects / containsObject / PolygonalFootprintRegion.containsObject / minimumDistanceTo as guarded "
+        "exits over named exact quantities; TLC checks every exit sound, lists total, oracle lemmas; bound to the code by replay "
+        "of a stratified batch on "
         "the real objects (tilt given through own angles or through parentOrientation; answers compared, exits probed with "
         "sys.monitoring)",
         "TLC enumerates every configuration of the universe blocks (shape pairs x parent and local rotations x lattice window) and "
         "every internal choice and checks ExitsSound, DoneSound, OracleLemmas and deadlock-freedom; the batch configurations, "
-        "stratified by procedure, deciding exit and expected answer (parent-tilted boxes as strata of their own), are replayed on "
-        "the real Object / Region code and intersects (both directions), containsObject and minimumDistanceTo must equal the "
-        "oracle unless the configuration touches.",
-        "Exact lattice sub-universe only (unions of 1-3 half-unit lattice boxes, 24 cube rotations, rectilinear footprints); no "
+        "stratified by procedure, deciding exit and expected answer (parent-tilted boxes, and large objects at the extremities of "
+        "an L-shaped container in the turned frame, as strata of their own), are replayed on the real Object / Region code and "
+        "intersects (both directions), containsObject and minimumDistanceTo must equal the oracle unless the configuration touches.",
+        "Exact lattice sub-universe only (unions of 1-3 half-unit lattice boxes, 24 cube rotations, rectilinear footprints); the "
+        "one generic (rational-yaw) frame is used for mesh containment only, not for intersects / distance / footprints; no other "
         "generic angles, curved primitives or composed regions; the Object.intersects(PolygonalRegion) fast path is not modelled; "
         "touching / flush = don't-care; the exit taken is diagnostic only. Open known findings: fcl-convex-distance (third-party "
         "FCL) and nested-nonconvex-distance.",
@@ -115,9 +120,11 @@ CHECKS = {
         "subsets of 5 atoms, exact rational weights) and checks proportionality to the measure of the composed set; bound to the "
         "code by exhaustive scripted-RNG replay of discrete compositions (exact laws), trace validation of the real generic "
         "samplers with the same actions, and TLC classifying seeded samples and triangulation weights on the lattice",
-        "TLC checks ChainRule, ReturnInSet, RejectSound, Proportional, OperationalBelowDenot, DiscUniform on every behaviour. Every "
-        "RNG branch of the real samplers of 274 discrete compositions (point sets, grid, point set x region, both orders) must "
-        "reproduce the uniform law on the composed set computed from lattice membership; every logged trace of the real "
+        "TLC checks ChainRule, ReturnInSet, RejectSound, Proportional, OperationalBelowDenot, DiscUniform, SeqIndependent on every "
+        "behaviour. Every RNG branch of the real samplers of 274 discrete compositions (point sets, grid, point set x region, both "
+        "orders) must reproduce the uniform law on the composed set computed from lattice membership; two consecutive samples of "
+        "one point set intersected with a random second operand must have exactly the product law (nothing remembered between "
+        "samples); every logged trace of the real "
         "UnionRegion / IntersectionRegion / DifferenceRegion samplers (choices weights, operand draws, multiplicity coin, returned "
         "point) must be a behaviour of the machine; every sample of every primitive and specialised composition must be a member "
         "in all three coordinates; the cumulative triangle weights of every polygonal result (incl. multi-component polygons and "
@@ -130,9 +137,11 @@ CHECKS = {
     ),
     "C05": (
         "model_checking",
-        "TLA+ Expr.tla over lib/PyNum.tla: Eval of expression DAGs in plain-Python semantics (integers and dyadic floats, lifted "
-        "operators incl. reflected forms, divmod/round/abs, getitem/slices, calls with keyword and star arguments, attribute of a "
-        "random choice, `self.`-dependent class defaults as a dependency fixpoint) and the library's construction rewrites with "
+        "TLA+ Expr.tla over lib/PyNum.tla: Eval of expression DAGs in plain-Python semantics (integers and dyadic floats, tuples / "
+        "lists / namedtuples with the container type part of the value, lifted operators incl. reflected forms, divmod/round/abs, "
+        "getitem/slices, calls with keyword and star arguments in every position, attribute / method of a random choice, a lifted "
+        "vector operator seen through a coordinate, `self.`-dependent class defaults as a dependency fixpoint, container literals "
+        "with lazily evaluated elements inside random expressions) and the library's construction rewrites with "
         "their side conditions, checked by TLC on every leaf assignment; bound to the code by replay: every node of every DAG is a "
         "global parameter of a generated program and every RNG branch of Scenario.generate is compared with TLC's vectors, "
         "supportInterval must contain the exact support",
@@ -142,12 +151,14 @@ CHECKS = {
         "prints the plain-Python value of every node and the exact supports; the set of value vectors observed over all RNG "
         "branches of the real program must equal the printed set and each supportInterval must contain the spec's [min, max] or "
         "be unknown. Expr.tla's rows are cross-checked against CPython on every case (disagreement = machinery failure).",
-        "Exact sub-universe (ints, dyadic floats, tuples / lists; Range scripted to lo/mid/hi); cases where plain Python raises, a "
-        "leaf support is empty or a value leaves the dyadics are dropped by the spec's well-formedness predicate; comparisons enter "
-        "through lifted functions only; literal containers indexed by random values and star-calls through bound methods of "
-        "literals with random fields are outside the fragment; vectors, orientations, trigonometry, str, dicts not covered; "
-        "exhaustive depth-2 core + seeded random DAGs and class chains, not all programs; the Scenic-text / JSON printer pair is "
-        "trusted. No open finding (the seven defects found are repaired; their named deviations stay in the spec for regression).",
+        "Exact sub-universe (ints, dyadic floats, tuples / lists / namedtuples; Range scripted to lo/mid/hi); cases where plain "
+        "Python raises, a leaf support is empty or a value leaves the dyadics are dropped by the spec's well-formedness predicate; "
+        "comparisons enter through lifted functions only; literal containers indexed by random values and star-calls through bound "
+        "methods of literals with random fields are outside the fragment; vectors only through (Vector(a, 2, 0) * b).x; "
+        "orientations, trigonometry, str, dicts not covered; exhaustive depth-2 core (incl. star positions, container kinds, "
+        "quotient / product supports around zero, a fixed object core) + seeded random DAGs and class chains, not all programs; "
+        "the Scenic-text / JSON printer pair is trusted. No open finding (the nine defects found are repaired; their named "
+        "deviations stay in the spec for regression).",
         "3/C05",
     ),
     "C06": (
@@ -176,14 +187,17 @@ CHECKS = {
         "(cube-group and Pythagorean rotations as integer matrices with a common denominator), evaluated and lemma-checked by TLC "
         "per case; bound to the code by replay: every case created in a compiled Scenic program, position / orientation matrix / "
         "operator value compared (abs tol 1e-6)",
-        "TLC evaluates every generated case (constructs x reference poses x rotations x parent orientations; incl. `facing` a "
-        "vector field or value under given / inherited tilted parents and `on` placement onto box surfaces, volumes, object tops "
-        "and vectors with the nearest hit on either side), checks the frame lemmas (bounding-box gap through the target's inverse "
+        "TLC evaluates every generated case (constructs x reference poses x rotations x parent orientations; incl. the directional "
+        "specifiers relative to an Object with `by` omitted / 0 / positive / a vector and explicit or default contactTolerance "
+        "(explicit D gives a gap of exactly D, only an omitted D half the new object's tolerance), `facing` a vector field or "
+        "value under given / inherited tilted parents and `on` placement onto box surfaces, volumes, object tops and vectors with "
+        "the nearest hit on either side), checks the frame lemmas (bounding-box gap through the target's inverse "
         "orientation, line-of-sight frame, side points on the box, forward axis parallel to the direction, P * (P^-1 * F) = F, "
         "nearest-hit lemma, isometry) and prints expected position, rotation matrix, angle or squared distance; all are replayed "
         "on real objects.",
-        "Sub-universe only (quarter lattice, 24 cube rotations + Pythagorean yaws, Pythagorean lines of sight); `by` absent or "
-        "scalar; `following`, the random specifying form of `on <region>`, `distance past`, field-valued `relative to`, mesh "
+        "Sub-universe only (quarter lattice, 24 cube rotations + Pythagorean yaws, Pythagorean lines of sight); vector-valued `by` "
+        "is read as the docstrings describe it (the reference only has the scalar form); `following`, the random specifying form "
+        "of `on <region>`, `distance past`, field-valued `relative to`, mesh "
         "surfaces other than box faces not covered; `apparently facing` demanded only for planar (pure-yaw) parents, free under "
         "pitch / roll because the reference does not say; quick is a seeded sample of the cross product; the case printer is "
         "trusted glue. No open finding (beyond and apparently-facing parent orientation, projectVector nearest hit are repaired).",
@@ -194,17 +208,21 @@ CHECKS = {
         "TLA+ Visibility.tla over lib/Lat3.tla (exact lattice geometry: cube-group and Pythagorean rotations, integer slab test) "
         "checked by TLC over templates x relative rotations x viewer orientations x viewer parameters x occluder prefixes; bound to "
         "the code by replay: real Point/OrientedPoint/Object (3D and 2D) built at the printed poses, canSee / "
-        "visibleRegion.containsPoint / the `can see` operator compared",
+        "visibleRegion.containsPoint / the `can see` operator / `visible from` and `not visible from` requirements of compiled "
+        "scenes compared",
         "TLC enumerates every case of the generated cross product (incl. templates with long / large occluders whose centre lies "
-        "outside the view distance while the body crosses the sight line), checks the frame lemmas (inverse orientation undoes "
+        "outside the view distance while the body crosses the sight line, and elongated targets whose near end is in range but "
+        "whose part inside the view window is not), checks the frame lemmas (inverse orientation undoes "
         "placement, rigid lengths, axis alignment), consistency of the three object clauses with each other and with the exact "
         "point specification, and monotonicity in occluders; every printed expectation (TRUE/FALSE/free per occluder prefix; "
         "visibleRegion membership for point targets) is replayed on the real objects, a sample also through `require ... can see` "
-        "in compiled programs.",
+        "and through compiled scenes declaring the target `visible from` / `not visible from` the viewer (after another visibility "
+        "requirement) as the spec answers with all occluders, which must be accepted.",
         "Sub-universe only: quarter-lattice scenes, 24 cube rotations + 5 Pythagorean yaws, view angles {90,180,270,360}x{90,180}, "
         "box targets / occluders; exact for point targets off boundaries, three clauses for objects (everything else free, decided "
         "by ray sampling in the code); visibleRegion with a 25 % margin on curved faces; quick uses a seeded subset of the "
-        "rotations and replays part of the 3D box cases; the visibility requirements of scenes are C02's subject. No open finding "
+        "rotations and replays part of the 3D box cases; of the default requirements only the `visible from` / `not visible from` "
+        "specifier requirements at fixed positions are exercised (requireVisible and random positions are C02's). No open finding "
         "(point-branch rotation order, wide sector polygon, Point.visibleRegion radius are repaired).",
         "3/C17",
     ),
@@ -217,14 +235,17 @@ CHECKS = {
         "every lattice pose against the spec's Feasible bit) and by differential validation: each program compiled with and "
         "without pruning under a time guard, accepted scenes of the unpruned program must lie in the real pruned region",
         "TLC enumerates every requirement shape and every probe of every lattice program of the batch (containment with offsets and "
-        "with constant / random yaw, pitch, roll, box volumes, visibility, relative heading on polygonal vector fields), checks "
+        "with constant / random yaw, pitch, roll, box volumes, visibility incl. objects `on` a polygon seen from above / below its "
+        "plane, relative heading on polygonal vector fields incl. headings = field heading + bounded random deviation crossing "
+        "+-180 degrees), checks "
         "RuleSound / RuleTight / MirrorSound and Feasible within PrunedIdeal within Base; on the real code an extracted interval "
         "must contain the true hull, and a feasible probe outside the pruned region, a base-exterior probe inside it, a "
         "satisfiable program refused or timing out, a changed non-positional property or a lost accepted scene is a violation.",
         "Lattice sub-universe (rectilinear regions, box objects, angles multiple of 90 degrees, Range between lattice angles), "
         "per-object (marginal) feasibility over a finite witness set, seeded programs + fixed core; an unsound interval alone is "
-        "only an observation unless it changes a pruned region; voxel erosion that keeps too much, generic angles and random "
-        "heading offsets not covered; regions depending on a random observer are probed before pruneVisibility. No open finding "
+        "only an observation unless it changes a pruned region; heading deviations are decided on witness values kept 1-2 degrees "
+        "off every boundary; voxel erosion that keeps too much and generic angles not covered; regions depending on a random "
+        "observer are probed before pruneVisibility. No open finding "
         "(the seven pruning defects found are repaired and act as regression guards).",
         "3/C08",
     ),
@@ -258,20 +279,23 @@ CHECKS = {
         "ast.parse) node by node with line numbers",
         "Pairwise constructor coverage of the Python 3.12 abstract syntax (every constructor under every field of every "
         "constructor that CPython reads back, minimal + variants), every order of positional / starred / keyword / ** arguments "
-        "CPython accepts in calls and class definitions, a catalogue of ~190 lexical forms and ~75 rewrite-trigger placements, each "
-        "at module level and inside a behaviour body / require condition / specifier argument; tree and line numbers compared "
-        "with Rewrite(ast.parse), and the compiled tree must pass compile().",
+        "CPython accepts in calls and class definitions, f-string debug fields (expression x `=` form x conversion x format spec "
+        "incl. nested fields), subscripts of 1-3 index elements (names, slices, starred, ellipsis, tuples) in load / store / del / "
+        "augmented / annotation positions, a catalogue of ~190 lexical forms and ~75 rewrite-trigger placements, at module level "
+        "and (all or a seeded part) inside a behaviour body / require condition / specifier argument; tree and line numbers "
+        "compared with Rewrite(ast.parse), and the compiled tree must pass compile().",
         "Reduced claim (DESIGN 5): no corpus run over the standard library; the oracle is CPython's parser; columns are "
         "don't-cares; trees deeper than two constructors and tokenizer behaviour outside the catalogue are not covered; an "
-        "unparenthesised Python expression in a require / specifier position may be refused. No open finding (f-string, ternary "
-        "chain, behaviour-local target, empty target and star-annotation defects are repaired).",
+        "unparenthesised Python expression in a require / specifier position may be refused. No open finding (f-string incl. debug "
+        "text after a form feed, ternary chain, behaviour-local target, empty target and star-annotation defects are repaired).",
         "3/C09",
     ),
     "C10": (
         "exploration",
         "TLA+ FrontEnd.tla (compilation lifecycle over the veneer's global state, re-entrant through imports, failure at every "
         "step, model-checked exhaustively) + FrontEndTrace.tla validating traces recorded by probes wrapped around the translator / "
-        "veneer entry points while seeded token-mutated, line-truncated and targeted programs run through scenarioFromString, "
+        "veneer entry points while seeded token-mutated, line-truncated, targeted and statement-x-context matrix programs run "
+        "through scenarioFromString, "
         "scenarioFromFile (incl. imported modules, CRLF / tabs / BOM / non-UTF-8 files) and parse+compile; FrontEndForms.tla "
         "formulas and every form quoted in the reference replayed into the parser",
         "Each program must end in a scenario or a ScenicSyntaxError naming a line inside the module it names (and, from a file, "
@@ -279,7 +303,9 @@ CHECKS = {
         "same process, and its event trace must be a behaviour of the lifecycle machine (an internal error at an input stage has "
         "no action); every documented form and every requirement formula of depth <= 2 must compile with the documented grouping.",
         "Totality over all texts is approximated by seeded mutation of ~880 seed programs, truncation of 7 base programs at every "
-        "line boundary and 55 targeted texts; exec-stage errors of the user's own code are don't-cares (only cleanup is checked); "
+        "line boundary, targeted texts (incl. long operator / call / elif chains) and a matrix of 48 statement forms in 20 "
+        "contexts (960 programs, each compiling or refused with a located error); exec-stage errors of the user's own code are "
+        "don't-cares (only cleanup is checked); "
         "error messages not compared; seeds needing a simulator / map world model only go through the bare pipeline. No open "
         "finding (all front-end crashes found are repaired).",
         "3/C10",
@@ -288,8 +314,10 @@ CHECKS = {
         "model_checking",
         "TLA+ Determinism.tla: self-composition of the Sampler machine (two copies, same program and RNG stream with a position, "
         "different environments: order of an unordered group of dependencies (requirement-only values / an object's random "
-        "properties), requirement-check order as a nondeterministic permutation, internal randomness between SaveRng/RestoreRng, "
-        "0-2 prior scenes) checked by TLC; the set-ordered, never-restored and restored-only-when-accepted variants must fail; "
+        "properties / the random parameters of one param statement / the random locals of a modular scenario), requirement-check "
+        "order as a nondeterministic permutation, internal randomness between SaveRng/RestoreRng, 0-2 prior scenes) checked by "
+        "TLC; the set-ordered, never-restored, restored-only-when-accepted and skip-a-requirement-once-another-passed variants "
+        "must fail; "
         "bound to the code by cross-process trace validation (DeterminismTrace.tla looks for ONE unlogged order explaining the "
         "draw traces of N perturbed fresh interpreters) and equality of canonical dumps",
         "TLC enumerates every environment and RNG stream for programs with <= 3 values in the unordered group, <= 3 requirements "
@@ -300,29 +328,34 @@ CHECKS = {
         "dumps (params, all object properties, iterations, further scenes, simulation result, generator states afterwards) must "
         "be identical and every traced draw trace a behaviour of the specification under one common order.",
         "Program families: finite-discrete programs (requirement-only values, RNG-consuming requirements, behaviours simulated with "
-        "DummySimulator), classes whose defaults need several random properties, a ring-arena mesh program (dump comparison only, "
-        "no trace); a handful of perturbed layouts / hash seeds / timing profiles per program, not all (the exhaustive enumeration "
-        "is on the model); pruning, visibility and external samplers are outside; run-time draws are logged but not replayed in "
-        "TLC. No open finding (requirement-deps-set-order is repaired; a regression is a violation).",
+        "DummySimulator), classes whose defaults need several random properties, multi-name param statements (with / without a "
+        "world model), modular scenarios with random locals, two mesh programs (ring arena; box around a non-convex solid with the "
+        "blanket collision check; dump comparison only, no trace); a handful of perturbed layouts / hash seeds / timing profiles "
+        "per program, not all (the exhaustive enumeration is on the model); pruning, visibility and external samplers are outside; "
+        "run-time draws are logged but not replayed in TLC. No open finding (requirement-deps-set-order and the hash-ordered "
+        "locals of modular scenarios are repaired; a regression is a violation).",
         "3/C15",
     ),
     "C16": (
         "model_checking",
         "TLA+ RegionAlg.tla / RegionGeom.tla: structural 3-D membership, height, AABB, distance, intersects and containment of "
-        "lattice regions and their compositions with the set laws as TLC invariants over every ordered pair of a 29-region "
-        "catalogue x 700 probes, plus reuse histories (one operand object reused over several steps against operands translated "
-        "along z, HistoryFree); bound to the code by replay of containsPoint/z/AABB/distanceTo/intersects/containsRegion of "
-        "operands and results and by TLC classifying seeded samples of every result region",
-        "TLC checks LawMember, LawCommute, LawPartition, LawIdentities, LawPlane, HeightSound, BoxSound, DistSound, "
+        "lattice regions (incl. mesh volumes whose cross-sections have a hole) and their compositions with the set laws as TLC "
+        "invariants over every ordered pair of a 35-region catalogue x 700 probes, plus reuse histories (one operand object reused "
+        "over several steps against operands translated along z, also straddling the end of a cached prism; HistoryFree); bound to "
+        "the code by replay of containsPoint/z/AABB/size/distanceTo/intersects/containsRegion of operands and results and by TLC "
+        "classifying seeded samples of every result region",
+        "TLC checks LawMember, LawCommute, LawPartition, LawIdentities, LawPlane, HeightSound, BoxSound, DistSound, MeasSound, "
         "IntersectsSound, ContainsSound, HistoryFree on every (ordered pair, operation) and history step; every answer of the real "
-        "regions on the probes the spec allows, every height and AABB, and every sample drawn from a result must agree with the "
+        "regions on the probes the spec allows, every height, AABB and (where the lattice decides it) size, and every sample drawn "
+        "from a result must agree with the "
         "printed expectation, whatever the operand objects were used for before; unsupported combinations must refuse with the "
         "documented exception kinds (anything else is a crash).",
-        "Integer-lattice sub-universe only (axis-parallel / 45-90 degree shapes, heights 0 and 2); quick = 469 of 841 ordered "
-        "pairs; containsPoint compared only in the common plane of planar operands and clear of boundaries; touching "
-        "configurations and samples in cells crossed by an arc are don't-cares; curved kinds with a margin; projectVector and "
-        "lazily evaluated operands not bound; size compared only indirectly (C03). No open finding (the ten region defects found "
-        "are repaired; their trigger predicates stay in the spec but excuse nothing).",
+        "Integer-lattice sub-universe only (axis-parallel / 45-90 degree shapes, heights 0 and 2); quick = a core, the holed-mesh "
+        "pairs and seeded others (about 480 of the 1 225 ordered pairs); containsPoint compared only in the common plane of planar "
+        "operands and clear of boundaries; touching configurations, probes within half a unit of a common face plane of two "
+        "volumes and samples in cells crossed by an arc are don't-cares; curved kinds with a margin; projectVector and lazily "
+        "evaluated operands not bound. No open finding (the eleven region defects found, the last being containsRegion ignoring "
+        "heights, are repaired; their trigger predicates stay in the spec but excuse nothing).",
         "3/C16",
     ),
     "C11": (
